@@ -40,7 +40,8 @@ type world struct {
 	t1idx   []index  // indexes that exist right now
 	t2idx   []index
 	state   string
-	anyCell map[string]int // engine-defined cells: (query, row, col) -> first observed value
+	lastChain string
+	anyCell map[string]anyObs // engine-defined cells: (state, query, col) -> first observed value
 }
 
 func (w *world) do(sql string) error {
@@ -52,6 +53,15 @@ func (w *world) must(sql string) {
 	if err := w.do(sql); err != nil {
 		vh.Fatalf("world h=%d schema=%q: %s: %v", w.h.ID, w.sc.Name, sql, err)
 	}
+}
+
+func (w *world) hasUnique() bool {
+	for _, ix := range w.t1idx {
+		if ix.Unique {
+			return true
+		}
+	}
+	return false
 }
 
 func (w *world) createIndexes(late bool) {
@@ -70,16 +80,76 @@ func (w *world) createIndexes(late bool) {
 }
 
 func (r *runner) runWorld(h *history, sv int) {
+	if !r.buildAndRun(h, sv, false) {
+		// the transaction could not be used (a statement was refused, or its effect is not the model's): same
+		// history again on a fresh store with every statement auto-committed, so that the other two states still run
+		if !r.buildAndRun(h, sv, true) {
+			res.Count("world:abandoned", 1)
+		}
+	}
+	res.Count("world", 1)
+	res.Count("schema:"+r.cf.Schemas[sv-1].Name, 1)
+}
+
+// content reads t1 through the primary index and compares it with the model's table.
+func (w *world) content(want [][]int) (bool, [][]int) {
+	got, err := w.e.query("SELECT id, a, b, c FROM t1 USE INDEX ON (id)")
+	if err != nil {
+		vh.Fatalf("world h=%d schema=%q: reading t1: %v", w.h.ID, w.sc.Name, err)
+	}
+	q := &w.r.cf.Queries[0]
+	abs, bad := w.toAbstract(q, got)
+	if bad != "" {
+		return false, abs
+	}
+	return bagEq(bagOf(abs), bagOf(want)), abs
+}
+
+// dmlDiffers records that the DML history did not produce the model's table.  UPDATE / DELETE choose their rows
+// through the same access paths as SELECT, so inside a transaction the two known index defects change what
+// gets written; they are recognised by what is wrong with the table.
+func (w *world) dmlDiffers(got [][]int, inTx bool) {
+	sig := "sql.dml:table-differs-from-model:" + w.h.Stmts[len(w.h.Stmts)-1].K
+	if inTx && len(w.t1idx) > 0 {
+		removed := map[int]bool{}
+		for _, id := range w.h.TxRemoved {
+			removed[id] = true
+		}
+		want := bagOf(w.h.Final)
+		resurrected := false
+		for _, r := range got {
+			if want[key(r)] == 0 && removed[r[0]] {
+				resurrected = true
+			}
+		}
+		if resurrected {
+			sig = "sqltx:uidx_no_own_removal:dml-in-tx-writes-through-stale-index-entry"
+		} else {
+			sig = "sqltx:transient_index_key_without_pk:dml-in-tx-misses-rows-sharing-an-index-key"
+		}
+	}
+	res.Violate(sig, fmt.Sprintf("history %d (mutation %d, base %d, split %d) under schema %q: after the statements the table (primary-key scan) is %v, the model says %v",
+		w.h.ID, w.h.Mut, w.h.Base, w.h.Split, w.sc.Name, got, w.h.Final),
+		map[string]interface{}{"history": w.h.ID, "schema": w.sc.Name, "schema_id": w.sv, "script": append([]string{}, w.script...)})
+	res.Count("world:dml-differs", 1)
+}
+
+func (r *runner) buildAndRun(h *history, sv int, allAuto bool) bool {
 	sc := &r.cf.Schemas[sv-1]
 	k := int(r.seed) + h.ID*3 + sv
-	w := &world{r: r, h: h, sv: sv, sc: sc, anyCell: map[string]int{},
+	w := &world{r: r, h: h, sv: sv, sc: sc, anyCell: map[string]anyObs{},
 		c: &conc{null: r.cf.Null, any: r.cf.Any, scale: scales[k%len(scales)], strs: strTables[(k/3)%len(strTables)]}}
 	dir := filepath.Join(r.dir, fmt.Sprintf("w%d_%d", h.ID, sv))
+	os.RemoveAll(dir)
 	w.e = openEnv(dir)
 	defer func() {
 		w.e.close()
 		os.RemoveAll(dir)
 	}()
+	split := h.Split
+	if allAuto {
+		split = len(h.Stmts)
+	}
 	w.must("CREATE TABLE t1 (id INTEGER, a INTEGER, b VARCHAR[16], c BOOLEAN, PRIMARY KEY id)")
 	w.must("CREATE TABLE t2 (id INTEGER, x INTEGER, y VARCHAR[16], PRIMARY KEY id)")
 	w.createIndexes(false)
@@ -90,51 +160,62 @@ func (r *runner) runWorld(h *history, sv int) {
 		}
 		w.must("INSERT INTO t2 (id, x, y) VALUES " + strings.Join(rs, ", "))
 	}
-	for i := 0; i < h.Split; i++ {
-		w.must(renderStmt(&h.Stmts[i], w.c))
-		res.Count("stmt:"+h.Stmts[i].K+":autocommit", 1)
-	}
 	lateDone := false
-	if h.Split > 0 {
+	for i := 0; i < split; i++ {
+		if i == h.Split && h.Split > 0 && !lateDone {
+			w.createIndexes(true)
+			lateDone = true
+		}
+		w.must(renderStmt(&h.Stmts[i], w.c))
+		if !allAuto {
+			res.Count("stmt:"+h.Stmts[i].K+":autocommit", 1)
+		}
+	}
+	if split > 0 && !lateDone {
 		w.createIndexes(true)
 		lateDone = true
 	}
-	if h.Split < len(h.Stmts) {
+	if split < len(h.Stmts) {
 		w.must("BEGIN TRANSACTION")
-		refused := ""
-		for i := h.Split; i < len(h.Stmts); i++ {
+		for i := split; i < len(h.Stmts); i++ {
 			sql := renderStmt(&h.Stmts[i], w.c)
 			if err := w.do(sql); err != nil {
-				refused = fmt.Sprintf("%s: %v", sql, err)
-				break
+				// The engine refused a statement of the transaction (and cancelled the transaction).  That is C13's
+				// business (own writes inside a transaction), not a query result: recorded under C13's signatures.
+				refused := fmt.Sprintf("%s: %v", sql, err)
+				sig := "sqltx:dml-refused-in-tx:" + errClass(refused)
+				if strings.Contains(refused, "non-transient key to transient") {
+					sig = "sqltx:upd_own_inserted_u_fails:c11-history"
+				} else if strings.Contains(refused, "key already exists") {
+					sig = "sqltx:uidx_no_own_removal:dml-refused"
+					if !w.hasUnique() {
+						sig = "sqltx:pk_get_sees_own_deleted:c11-history"
+					}
+				}
+				res.Violate(sig, fmt.Sprintf("history %d (mutation %d, base %d) under schema %q: inside the transaction the engine refused %s",
+					h.ID, h.Mut, h.Base, sc.Name, refused), map[string]interface{}{"history": h.ID, "schema": sc.Name, "schema_id": sv,
+					"script": append([]string{}, w.script...)})
+				res.Count("world:tx-refused", 1)
+				return false
 			}
+		}
+		if ok, got := w.content(h.Final); !ok {
+			w.dmlDiffers(got, true)
+			return false
+		}
+		for i := split; i < len(h.Stmts); i++ {
 			res.Count("stmt:"+h.Stmts[i].K+":in-tx", 1)
 		}
-		if refused == "" {
-			w.state = "intx"
-			w.runAll()
-			w.must("COMMIT")
-		} else {
-			// The engine refused a statement of the transaction (and cancelled the transaction).  That is C13's
-			// business (own writes inside a transaction), not a query result: it is recorded under C13's root-cause
-			// signature and the history is applied with auto-commit instead so that the other two states still run.
-			w.e.tx = nil
-			sig := "sqltx:dml-refused-in-tx:" + errClass(refused)
-			if strings.Contains(refused, "non-transient key to transient") {
-				sig = "sqltx:upd_own_inserted_u_fails:c11-history"
-			} else if strings.Contains(refused, "key already exists") {
-				sig = "sqltx:uidx_no_own_removal:dml-refused"
-			}
-			res.Violate(sig, fmt.Sprintf("history %d (mutation %d, base %d) under schema %q: inside the transaction the engine refused %s",
-				h.ID, h.Mut, h.Base, sc.Name, refused), map[string]interface{}{"script": append([]string{}, w.script...)})
-			res.Count("world:tx-refused", 1)
-			for i := h.Split; i < len(h.Stmts); i++ {
-				w.must(renderStmt(&h.Stmts[i], w.c))
-			}
-		}
+		w.state = "intx"
+		w.runAll()
+		w.must("COMMIT")
 	}
 	if !lateDone {
 		w.createIndexes(true)
+	}
+	if ok, got := w.content(h.Final); !ok {
+		w.dmlDiffers(got, false)
+		return false
 	}
 	w.state = "committed"
 	w.runAll()
@@ -142,8 +223,7 @@ func (r *runner) runWorld(h *history, sv int) {
 	w.e.reopen()
 	w.state = "reopened"
 	w.runAll()
-	res.Count("world", 1)
-	res.Count("schema:"+sc.Name, 1)
+	return true
 }
 
 func errClass(msg string) string {
@@ -201,6 +281,7 @@ func (w *world) forms(q *query) []form {
 		fs = append(fs, form{name: "join:hash/" + n, useT1: u, where: "plain", joinCond: "hash"})
 		fs = append(fs, form{name: "join:nested/" + n, useT1: u, where: "plain", joinCond: "nl"})
 	}
+	fs = append(fs, form{name: "join:nested-no-range", where: "plain", joinCond: "nlh"})
 	fs = append(fs, form{name: "join:hash-flipped", where: "plain", joinCond: "flip"})
 	fs = append(fs, form{name: "join:hash-unqualified-inner", where: "plain", joinCond: "unq"})
 	fs = append(fs, form{name: "join:derived-inner", where: "plain", joinCond: "flip", derived2: true})
@@ -228,7 +309,10 @@ func (w *world) runAll() {
 	}
 }
 
-type rowsT [][]int
+type anyObs struct {
+	val   int
+	chain string
+}
 
 func key(r []int) string { return fmt.Sprint(r) }
 
@@ -290,7 +374,7 @@ func (w *world) toAbstract(q *query, got *qres) ([][]int, string) {
 //     drawn from the full result, and a tie group lying completely inside the window is complete;
 //   - LIMIT without ORDER BY: any sub-bag of the right size;
 //   - cells the spec marks ANY are engine-defined: they must be the same for every plan and state.
-func (w *world) conforms(k *kase, q *query, got [][]int) string {
+func (w *world) conforms(k *kase, q *query, got [][]int, chain string) string {
 	sh := &q.Shape
 	exp := k.Rows
 	var keyPos []int
@@ -321,13 +405,13 @@ func (w *world) conforms(k *kase, q *query, got [][]int) string {
 			if v != w.c.any {
 				continue
 			}
-			id := fmt.Sprintf("%d/%d", k.Q, j)
+			id := fmt.Sprintf("%s/%d/%d", w.state, k.Q, j)
 			if first, seen := w.anyCell[id]; seen {
-				if cp[j] != first {
-					return fmt.Sprintf("engine-defined cell (column %d) is %d here and %d through another plan or state", j+1, cp[j], first)
+				if cp[j] != first.val {
+					return fmt.Sprintf("engine-defined cell (column %d) is %d here and %d through the plan %s", j+1, cp[j], first.val, first.chain)
 				}
 			} else {
-				w.anyCell[id] = cp[j]
+				w.anyCell[id] = anyObs{cp[j], chain}
 			}
 			cp[j] = v
 		}
@@ -479,6 +563,10 @@ func (r *runner) pickSelftest() {
 // check runs one SQL text and judges the answer; returns the abstract rows (nil when refused / faulty).
 func (w *world) check(sql string, q *query, k *kase, f form, what string) [][]int {
 	got, err := w.e.query(sql)
+	w.lastChain = ""
+	if err == nil {
+		w.lastChain = got.Chain
+	}
 	res.Count("executions", 1)
 	res.Count("state:"+w.state, 1)
 	res.Count("form:"+f.name, 1)
@@ -486,11 +574,16 @@ func (w *world) check(sql string, q *query, k *kase, f form, what string) [][]in
 		if strings.Contains(err.Error(), "syntax error") {
 			vh.Fatalf("cannot render %s: %s: %v", what, sql, err)
 		}
-		if k.Touchy && touchyRefusal(err) {
+		// NOT (NOT (P)) puts a nullable boolean condition under NOT, where the engine refuses UNKNOWN
+		if (k.Touchy || f.where == "notnot" && hasBool(q.Where[0])) && touchyRefusal(err) {
 			res.Count("touchy:refused", 1)
 			return nil
 		}
-		w.report("error:"+errClass(err.Error()), "", f, q, sql, k, nil, fmt.Sprintf("the engine answers with an error: %v", err))
+		chain := ""
+		if got != nil {
+			chain = got.Chain
+		}
+		w.report("error:"+errClass(err.Error()), chain, f, q, sql, k, nil, fmt.Sprintf("the engine answers with an error: %v", err))
 		return nil
 	}
 	if k.Touchy {
@@ -507,7 +600,7 @@ func (w *world) check(sql string, q *query, k *kase, f form, what string) [][]in
 		"rows": fmt.Sprint(got.Rows)}, 6)
 	abs, bad := w.toAbstract(q, got)
 	if bad == "" {
-		bad = w.conforms(k, q, abs)
+		bad = w.conforms(k, q, abs, got.Chain)
 	}
 	if bad != "" {
 		// flake guard: the failure must re-occur
@@ -515,7 +608,7 @@ func (w *world) check(sql string, q *query, k *kase, f form, what string) [][]in
 		if err2 == nil {
 			abs2, bad2 := w.toAbstract(q, got2)
 			if bad2 == "" {
-				bad2 = w.conforms(k, q, abs2)
+				bad2 = w.conforms(k, q, abs2, got2.Chain)
 			}
 			if bad2 == "" {
 				res.Count("flaky-mismatch", 1)
@@ -569,21 +662,42 @@ func queryClass(q *query) string {
 	return c
 }
 
-func (w *world) report(symptom, chain string, f form, q *query, sql string, k *kase, got [][]interface{}, why string) {
-	cls := planClass(chain)
-	var sig string
+// txWrites: the open transaction has written rows of t1.
+func (w *world) txWrites() bool { return w.state == "intx" && w.h.Split < len(w.h.Stmts) }
+
+// diagnose gives the canonical signature of a wrong answer.  Root causes that the evidence identifies get their own
+// signature (the first three are those of C13's findings, whose consequences for queries show up here):
+//   - inside a transaction that deleted / changed rows, a scan of a secondary index still sees the old entries;
+//   - inside a transaction, rows written by it that share a secondary-index key collapse to one (the transient
+//     index key has no primary key);
+//   - DISTINCT + ORDER BY + LIMIT served by the bounded (top-N) sort: LIMIT is applied before DISTINCT;
+//   - hash join with an unqualified inner column in ON: the hash table is keyed by a selector no row has.
+// Everything else: query class : symptom : form : plan class : state.
+func (w *world) diagnose(symptom, chain, otherChain string, f form, q *query) string {
+	sec := usesSecondary(chain) || usesSecondary(otherChain)
 	switch {
-	case w.state == "intx" && len(w.h.TxRemoved) > 0 && usesSecondary(chain):
-		// root cause known from C13 (sqltx:uidx_no_own_removal): a transaction's own DELETE / UPDATE / UPSERT leaves
-		// the old entries of the secondary indexes visible to the transaction itself
-		sig = "sqltx:uidx_no_own_removal:in-tx-index-scan:" + queryClass(q)
-	default:
-		sig = fmt.Sprintf("sql.select:%s:%s:%s:%s:%s", queryClass(q), symptom, f.name, cls, stateClass(w.state))
+	case w.txWrites() && sec && len(w.h.TxRemoved) > 0:
+		return "sqltx:uidx_no_own_removal:in-tx-index-scan:" + queryClass(q)
+	case w.txWrites() && sec:
+		return "sqltx:transient_index_key_without_pk:in-tx-index-scan:" + queryClass(q)
+	case strings.Contains(chain, "distinct>projected>sort:topN"):
+		return "sql.select:topN-sort-before-distinct:" + symptom + ":" + stateClass(w.state)
+	case f.joinCond == "unq" && strings.Contains(chain, "joint") && !strings.HasPrefix(symptom, "error"):
+		return "sql.join:hash-join-unqualified-inner-column:" + queryClass(q) + ":" + symptom
 	}
+	return fmt.Sprintf("sql.select:%s:%s:%s:%s:%s", queryClass(q), symptom, f.name, planClass(chain), stateClass(w.state))
+}
+
+func (w *world) report(symptom, chain string, f form, q *query, sql string, k *kase, got [][]interface{}, why string) {
+	other := ""
+	if i := strings.Index(why, "through the plan "); i >= 0 {
+		other = why[i+len("through the plan "):]
+	}
+	sig := w.diagnose(symptom, chain, other, f, q)
 	text := fmt.Sprintf("history %d (mutation %d, base %d, split %d) schema %q state %s: %s  -- %s; served by %s; expected (abstract, before LIMIT) %v; engine returned %v",
 		w.h.ID, w.h.Mut, w.h.Base, w.h.Split, w.sc.Name, w.state, sql, why, chain, k.Rows, got)
 	res.Violate(sig, text, map[string]interface{}{
-		"history": w.h.ID, "schema": w.sc.Name, "state": w.state, "script": append([]string{}, w.script...), "query": sql,
+		"history": w.h.ID, "schema": w.sc.Name, "schema_id": w.sv, "state": w.state, "script": append([]string{}, w.script...), "query": sql,
 		"expected_abstract": k.Rows, "got": fmt.Sprint(got), "chain": chain, "scale": w.c.scale, "strings": w.c.strs})
 }
 
@@ -614,10 +728,15 @@ func (w *world) runPart(p *part) {
 		qp, kp := mk([]*pred{pr}, p.Pos, p.Touchy)
 		qn, kn := mk([]*pred{{K: "not", P: pr}}, p.Neg, p.Touchy)
 		qu, ku := mk([]*pred{{K: "pisnull", P: pr}}, p.Nul, p.Touchy)
+		chains := ""
 		all := w.check(renderQuery(qa, w.c, f), qa, ka, f, fmt.Sprintf("part%d:all", p.P))
+		chains += w.lastChain + " "
 		pos := w.check(renderQuery(qp, w.c, f), qp, kp, f, fmt.Sprintf("part%d:pos", p.P))
+		chains += w.lastChain + " "
 		neg := w.check(renderQuery(qn, w.c, f), qn, kn, f, fmt.Sprintf("part%d:neg", p.P))
+		chains += w.lastChain + " "
 		nul := w.check(renderQuery(qu, w.c, f), qu, ku, f, fmt.Sprintf("part%d:null", p.P))
+		chains += w.lastChain
 		if all == nil || pos == nil || neg == nil || nul == nil {
 			res.Count("partition:skipped-refused", 1)
 			continue
@@ -632,7 +751,11 @@ func (w *world) runPart(p *part) {
 		res.Count("partition:checked", 1)
 		if !bagEq(sum, bagOf(all)) {
 			sql := renderQuery(qp, w.c, f)
-			res.Violate("sql.select:partition-identity:"+stateClass(w.state),
+			sig := "sql.select:partition-identity:" + stateClass(w.state)
+			if w.txWrites() && strings.Contains(strings.ReplaceAll(chains, "raw[pk]", ""), "raw[") {
+				sig = w.diagnose("partition-identity", "raw[x]", "", f, qp)
+			}
+			res.Violate(sig,
 				fmt.Sprintf("history %d schema %q state %s: %s: P, NOT P and P IS NULL do not partition the result: %v + %v + %v vs %v",
 					w.h.ID, w.sc.Name, w.state, sql, pos, neg, nul, all),
 				map[string]interface{}{"script": append([]string{}, w.script...), "query": sql})
